@@ -254,7 +254,7 @@ func zero(t types.Type) value {
 		}
 		return s
 	case *types.Chan:
-		return chan value(nil)
+		return (*chanObj)(nil)
 	case *types.Map:
 		return (*hashmap)(nil)
 	case *types.Signature:
@@ -833,7 +833,7 @@ func unop(i *interpreter, instr *ssa.UnOp, x value) value {
 	}
 	switch instr.Op {
 	case token.ARROW: // receive
-		v, ok := <-x.(chan value)
+		_, v, ok := i.selectOp([]selCase{{ch: x.(*chanObj)}}, true, "receive")
 		if !ok {
 			v = zero(instr.X.Type().Underlying().(*types.Chan).Elem())
 		}
@@ -996,7 +996,8 @@ func callBuiltin(caller *frame, fn *ssa.Builtin, args []value) value {
 		return n
 
 	case "close": // close(chan T)
-		close(args[0].(chan value))
+		caller.i.schedPoint("close")
+		args[0].(*chanObj).close()
 		return nil
 
 	case "delete": // delete(map[K]value, K)
@@ -1055,8 +1056,11 @@ func callBuiltin(caller *frame, fn *ssa.Builtin, args []value) value {
 			return len(x)
 		case *hashmap:
 			return x.len()
-		case chan value:
-			return len(x)
+		case *chanObj:
+			if x == nil {
+				return 0
+			}
+			return len(x.buf)
 		default:
 			panic(fmt.Sprintf("len: illegal operand: %T", x))
 		}
@@ -1069,8 +1073,11 @@ func callBuiltin(caller *frame, fn *ssa.Builtin, args []value) value {
 			return cap((*x).(array))
 		case []value:
 			return cap(x)
-		case chan value:
-			return cap(x)
+		case *chanObj:
+			if x == nil {
+				return 0
+			}
+			return x.cap
 		default:
 			panic(fmt.Sprintf("cap: illegal operand: %T", x))
 		}
